@@ -26,6 +26,10 @@ import (
 // maxPreallocSize is the maximum size allocated in advance for a declared bulk length or array size.
 const maxPreallocSize = 64 * 1024
 
+// maxArrayPreallocSize is the maximum number of elements allocated in advance for a declared array size.
+// It is small because arrays nest: the reservations of all levels add up.
+const maxArrayPreallocSize = 16
+
 // Paser represents a Redis serialization protocol (RESP) parser.
 type Parser struct {
 	reader io.Reader
